@@ -294,6 +294,31 @@ def canon_strings(e: ast.AST) -> ast.AST:
     return T().visit(copy.deepcopy(e))
 
 
+def canon_idioms(e: ast.AST) -> ast.AST:
+    """Peephole equivalences between string idioms (one spelling each):
+         s.partition(x)[0], s.split(x, 1)[0]      ->  s.split(x)[0]
+         s.rpartition(x)[2], s.rsplit(x, 1)[-1]   ->  s.split(x)[-1]"""
+
+    class T(ast.NodeTransformer):
+        def visit_Subscript(self, node):
+            self.generic_visit(node)
+            v, sl = node.value, node.slice
+            if isinstance(v, ast.Call) and isinstance(v.func, ast.Attribute) and isinstance(sl, (ast.Constant, ast.UnaryOp)) and not v.keywords:
+                try:
+                    idx = ast.literal_eval(sl)
+                except Exception:
+                    return node
+                m_, n_args = v.func.attr, len(v.args)
+                first = (m_ == "partition" and n_args == 1 and idx == 0) or (m_ == "split" and n_args == 2 and isinstance(v.args[1], ast.Constant) and v.args[1].value == 1 and idx == 0)
+                last = (m_ == "rpartition" and n_args == 1 and idx in (2, -1)) or (m_ == "rsplit" and n_args == 2 and isinstance(v.args[1], ast.Constant) and v.args[1].value == 1 and idx in (1, -1))
+                if first or last:
+                    call = ast.Call(func=ast.Attribute(value=v.func.value, attr="split", ctx=ast.Load()), args=[v.args[0]], keywords=[])
+                    return ast.fix_missing_locations(ast.copy_location(ast.Subscript(value=call, slice=ast.Constant(value=0) if first else ast.UnaryOp(op=ast.USub(), operand=ast.Constant(value=1)), ctx=node.ctx), node))
+            return node
+
+    return T().visit(e)
+
+
 def canon_collections(e: ast.AST) -> ast.AST:
     """One spelling for 'the elements of': `set(x)`, `frozenset(x)`, `list(x)`, `tuple(x)`, `sorted(x)` with a single
     argument are x, and `x.keys()` is x.  For rules that ask *which elements* are computed / iterated, not in which
@@ -442,10 +467,8 @@ def expand(func: ast.AST, e: ast.AST, depth: int = 6) -> ast.AST:
     import copy
 
     defs = cached_defs(func)
-    if not defs:
-        return e
-    r = _Subst(defs, depth).visit(copy.deepcopy(e))
-    return ast.fix_missing_locations(r)
+    r = _Subst(defs, depth).visit(copy.deepcopy(e)) if defs else copy.deepcopy(e)
+    return ast.fix_missing_locations(canon_idioms(r))
 
 
 def xmatch(func: ast.AST, p, e: ast.AST) -> Optional[Binds]:
